@@ -1,7 +1,7 @@
 (* Case runner for the C01 / C02 correspondence: compact literals, history / element / transceiver
    runners over Model/SI.v and a text renderer (one line per case). *)
 From Verif Require Import Prelude Model.SI.
-From Coq Require Import QArith Qreduction.
+From Coq Require Import QArith Qreduction Qabs.
 Open Scope Z_scope.
 
 (* a float given as mantissa * 2^exponent (exact) *)
@@ -9,14 +9,19 @@ Definition fq (m e : Z) : Q := if 0 <=? e then inject_Z (m * 2 ^ e) else Qmake m
 (* channel literal: f sw baud pch signal_ratio ase_ratio nli_ratio *)
 Definition ch (f sw br p s a n : Q) : chan := mkC f sw br p s a n.
 
-(* Q rendered as  <m>e<k>  meaning m * 2^k with 64 significant bits (floor) *)
+(* Q rendered as  <m>e<k>  meaning m * 2^k, correct to better than 2^-60 relative: numerator and denominator
+   are first truncated to 70 significant bits (shifts), so that the division is on small numbers *)
 Definition qs (q : Q) : string :=
   let nq := Qnum q in
   let dq := Zpos (Qden q) in
   if nq =? 0 then "0e0"%string else
-  let k := 64 - (Z.log2 (Z.abs nq) - Z.log2 dq) in
-  let m := if 0 <=? k then (nq * 2 ^ k) / dq else nq / (dq * 2 ^ (- k)) in
-  append (zs m) (append "e" (zs (- k))).
+  let sn := Z.max 0 (Z.log2 (Z.abs nq) - 70) in
+  let sd := Z.max 0 (Z.log2 dq - 70) in
+  let n' := Z.shiftr nq sn in
+  let d' := Z.shiftr dq sd in
+  let k := 56 - (Z.log2 (Z.abs n') - Z.log2 d') in
+  let m := if 0 <=? k then (n' * 2 ^ k) / d' else n' / (d' * 2 ^ (- k)) in
+  append (zs m) (append "e" (zs (sn - sd - k))).
 
 Definition chan_s (c : chan) : string := join "," [qs (cf c); qs (pch c); qs (rs c); qs (ra c); qs (rn c)].
 Definition spec_s (sp : spectrum) : string := join "|" (map chan_s sp).
@@ -47,6 +52,38 @@ Fixpoint hist (ops : list hop) (sp : spectrum) : list string :=
   end.
 Definition run_hist (sp : spectrum) (ops : list hop) : string := join ";" (hist ops sp).
 
+(* comparison with the state observed on the implementation, done here so that the bulk runs only print a
+   verdict: frequencies exactly, total power to 1e-9 relative, shares to 1e-9 relative or 1e-13 absolute *)
+Definition tol_rel : Q := 1 # 1000000000.
+Definition tol_abs : Q := 1 # 10000000000000.
+Definition qclose (rel ab m x : Q) : bool :=
+  let d := Qabs (m - x) in
+  let am := Qabs m in
+  let ax := Qabs x in
+  Qle_bool d ab || Qle_bool d (rel * (if Qle_bool am ax then ax else am)).
+Definition diff_s (i : Z) (field : string) (m : Q) : string :=
+  append "!" (append (zs i) (append "," (append field (append "," (qs m))))).
+Definition chan_cmp (i : Z) (m x : chan) : option string :=
+  if negb (Qeq_bool (cf m) (cf x)) then Some (diff_s i "frequency" (cf m))
+  else if negb (qclose tol_rel 0 (pch m) (pch x)) then Some (diff_s i "pch" (pch m))
+  else if negb (qclose tol_rel tol_abs (rs m) (rs x)) then Some (diff_s i "signal_ratio" (rs m))
+  else if negb (qclose tol_rel tol_abs (ra m) (ra x)) then Some (diff_s i "ase_ratio" (ra m))
+  else if negb (qclose tol_rel tol_abs (rn m) (rn x)) then Some (diff_s i "nli_ratio" (rn m))
+  else None.
+Fixpoint spec_cmp (i : Z) (m x : spectrum) : string :=
+  match m, x with
+  | [], [] => "="%string
+  | c :: t, d :: u => match chan_cmp i c d with Some s => s | None => spec_cmp (i + 1) t u end
+  | _, _ => append "!" (append (zs (i + Z.of_nat (length m))) (append ",count," (zs (i + Z.of_nat (length x)))))
+  end.
+(* expected: Some state observed after the step, None when the implementation raised *)
+Definition res_cmp (r : res spectrum) (x : option spectrum) : string :=
+  match r, x with
+  | Err e, _ => append "E:" e
+  | Ok sp, Some xs => spec_cmp 0 sp xs
+  | Ok _, None => "ok"%string
+  end.
+
 (* the same history, every step replayed from the state the implementation was in before it (no growth of
    the exact numerals: this is the bulk form); channels are (index into a table of (f, sw, baud), p, s, a, n) *)
 Definition tch (tb : list (Q * Q * Q)) (i : Z) (p s a n : Q) : chan :=
@@ -56,15 +93,15 @@ Definition tch (tb : list (Q * Q * Q)) (i : Z) (p s a n : Q) : chan :=
   end.
 Definition hstep0 (h : hop) (sp : spectrum) : res spectrum :=
   match h with HS o => sstep o sp | _ => hstep h sp end.
-Definition step1 (x : spectrum * hop) : string :=
-  let (sp, h) := x in
-  append (bs (hwf h sp)) (res_s (hstep0 h sp)).
-Definition run_steps (l : list (spectrum * hop)) : string := join ";" (map step1 l).
+Definition step1 (x : spectrum * hop * option spectrum) : string :=
+  let '(sp, h, ex) := x in
+  append (bs (hwf h sp)) (res_cmp (hstep0 h sp) ex).
+Definition run_steps (l : list (spectrum * hop * option spectrum)) : string := join ";" (map step1 l).
 
 (* ---- one element of a path, replayed from the snapshot taken before it ---- *)
-(*  <program is an instance of the kind's program><side conditions hold>#<state after>  *)
-Definition run_elem (k : ekind) (e : eprog) (sp : spectrum) : string :=
-  append (bs (eprog_okb k e)) (append (bs (ewfb e sp)) (append "#" (res_s (erun e sp)))).
+(*  <program is an instance of the kind's program><side conditions hold>#<verdict against the snapshot after>  *)
+Definition run_elem (k : ekind) (e : eprog) (sp : spectrum) (ex : option spectrum) : string :=
+  append (bs (eprog_okb k e)) (append (bs (ewfb e sp)) (append "#" (res_cmp (erun e sp) ex))).
 
 (* ---- Transceiver figures (1/linear) for one channel ---- *)
 Definition fig_s (r : figures) : string :=
